@@ -330,7 +330,15 @@ func runRPC(o *Opts) *Summary {
 			// whatever was inserted is accounted for like a sync from nobody
 			after := before
 			if panicked == "" {
-				vn.afterSync(victim, 0, nil, nil, sb, true)
+				// (a hostile push may still carry valid events - wrong sender, wrong
+				// known map - that the node inserts before it refuses the rest)
+				var wire []hg.WireEvent
+				if es, ok := c.cmd.(*bnet.EagerSyncRequest); ok && es != nil {
+					wire = es.Events
+				}
+				vn.hostile = true
+				vn.afterSync(victim, 0, wire, nil, sb, true)
+				vn.hostile = false
 				after = victim.historyDigest()
 			}
 			// the next valid messages must still be processed
